@@ -166,6 +166,24 @@ func runC12(c *Check) {
 		}
 	}
 
+	for i, hc := range m.HCalls {
+		eq, _ := NilEdges(I, ResultOfAny([]ssa.CallInstruction{hc}, 1))
+		for _, e := range eq {
+			re := ReachEdge(e, NewCut().AddInstrs(instrsOf(m.HCalls)...))
+			for _, ret := range Returns(I) {
+				if !re[ret] {
+					continue
+				}
+				ok := true
+				for _, o := range Origins(ret.Results[0]) {
+					if !IsResultOf(o, hc, 0) {
+						ok = false
+					}
+				}
+				c.Report(ok, P+".O1", "SUCCESS-KEEPS-OUTPUTS", I, ret.Pos(), fmt.Sprintf("return reachable from the success edge of handler call#%d", i), "after a successful attempt the returned messages are that attempt's outputs (the result of the first successful attempt is returned, not dropped)")
+			}
+		}
+	}
 	// O3 bound
 	counters := FindCounters(I)
 	isMax := func(v ssa.Value) bool { return AllOrigins(v, exportedFieldLoad("MaxRetries")) }
